@@ -162,6 +162,10 @@ func (p parser) transform(n *yaml.Node) (Node, error) {
 		if err != nil {
 			return nil, err
 		}
+		if t == TypeIDMap && i%2 == 0 && subContent.Type() != TypeIDString {
+			// Map keys are looked up and converted as strings everywhere.
+			return nil, fmt.Errorf("unsupported map key of type %s on line %d, only scalar keys are supported", subContent.Type(), subNode.Line)
+		}
 		contents[i] = subContent
 	}
 
